@@ -219,15 +219,32 @@ def run(ctx):
         else:
             val = fb.fn(cls + "::isValidPayload")
             mask = sum(1 << b for b in eb["flags"])
-            def tests_mask(atoms):
-                for a in atoms:
-                    if a[0] == "cmp" and a[2] == "==" and const_value(a[5]) == 0:
-                        x = strip_all_casts(a[4])
-                        if x.get("k") == "bin" and x.get("op") == "&" and const_value(x["r"]) == mask and (callee_name(strip_all_casts(x["l"])) or "").endswith("::getFlags"):
-                            return True
-                return False
-            ok = all(tests_mask(atoms) for atoms in implied_atoms(val))
-            res.check(ok, "C04-R3", "error-bits:Ethernet", val.loc, "validator requires (getFlags() & 0x%X) == 0" % mask, "Ethernet validator does not test exactly the error bits 0x%X" % mask)
+            hrec = cls + "::Header"
+            he = fb.fn_opt(hrec + "::hasError")
+            via_method = he is not None and all(any(a[0] == "truth" and a[2] is False and a[3].get("k") == "call" and callee_name(a[3]) == hrec + "::hasError"
+                                                    for a in atoms) for atoms in implied_atoms(val))
+            if via_method:
+                r = fb.record(hrec)
+                try:
+                    _, ret = interp.run(he, r["size"], {})
+                except g4.Unsupported as e:
+                    raise Broken("hasError outside the G4 vocabulary: %s" % e)
+                got = {a[1] for a in g4.atoms(ret.bits[0])}
+                pos = accessors.wire_pos(0, 2)
+                want = {pos(b) for b in eb["flags"]}
+                res.check(got == want, "C04-R3", "error-bits:Ethernet", he.loc, "hasError() = OR of exactly the error flag bits %s" % eb["flags"],
+                          "Ethernet hasError() tests wire bits %s of the flags field, the protocol's error bits are %s" %
+                          (sorted((b % 8) + 8 * (1 - b // 8) for b in got), eb["flags"]))
+            else:
+                def tests_mask(atoms):
+                    for a in atoms:
+                        if a[0] == "cmp" and a[2] == "==" and const_value(a[5]) == 0:
+                            x = strip_all_casts(a[4])
+                            if x.get("k") == "bin" and x.get("op") == "&" and const_value(x["r"]) == mask and (callee_name(strip_all_casts(x["l"])) or "").endswith("::getFlags"):
+                                return True
+                    return False
+                ok = all(tests_mask(atoms) for atoms in implied_atoms(val))
+                res.check(ok, "C04-R3", "error-bits:Ethernet", val.loc, "validator requires (getFlags() & 0x%X) == 0" % mask, "Ethernet validator does not test exactly the error bits 0x%X" % mask)
     # ---- R5 positions
     obs, _ = accessors.analyse(fb, ctx.spec("layout.json"))
     for o in obs:
